@@ -91,6 +91,8 @@ func init() {
 					d.Prog[0].Opts = append(d.Prog[0].Opts, POpt{T: "field", Key: keyHTTPStatus, Val: 3})
 				case 2: // K3
 					d.Default, d.Strict = true, false
+				case 6, 7: // a DefaultResolver in STRICT mode never falls back: no finding, everything round-trips
+					d.Default, d.Strict = true, true
 				case 5: // K10: a field whose value marshals as JSON null
 					d.Prog[0].Opts = append(d.Prog[0].Opts, POpt{T: "field", Key: 26, Val: nilSliceValue()})
 				case 4: // K9: a float32 field holding +-MaxFloat32
@@ -479,7 +481,7 @@ func runC09(d c09Desc) Case {
 			tags = append(tags, "empty-message-cause")
 		}
 	}
-	if d.Default {
+	if d.Default && !d.Strict {
 		tags = append(tags, "default-resolver-kindless-cause")
 	}
 	for _, s := range d.Prog {
